@@ -7,7 +7,7 @@ From Coq Require Import List Arith Lia ZArith QArith Qcanon.
 From GB Require Import Base.Field Base.FNum Base.Tables Model.Shell Model.MomentInt Model.Overlap Model.OneBody
   Proofs.CoreSumP Proofs.CoreBlockP Proofs.CoreDiffP Proofs.CoreExamplesP
   Proofs.BlockMatP Proofs.AssembledP Proofs.AssembledOverlapP Proofs.AssembledHermP
-  Proofs.AssembledSphP Proofs.AssembledSphOverlapP.
+  Proofs.AssembledSphP Proofs.AssembledSphOverlapP Proofs.AssembledSphHermP.
 Import ListNotations.
 Local Open Scope nat_scope.
 
@@ -119,5 +119,21 @@ Proof.
            ex_mixed ex_mixed_seg ex_mixed_wf ex_mixed_exps 1 0 0 2 1 3
            ltac:(cbn; lia) ltac:(cbn; lia) ltac:(vm_compute; lia) ltac:(vm_compute; lia)
            ltac:(vm_compute; lia) ltac:(vm_compute; lia)).
+Qed.
+
+(* Hermiticity on the mixed basis: inside the diagonal block of the spherical d shell (positions 2, 8) and
+   across the spherical d / Cartesian p shells (positions 8, 12) *)
+Example momentum_herm_mixed_ex :
+  nth 2 (nth 8 (momentum_integral_re KQ' ex_mixed None) []) []
+  = vneg KQ' (nth 8 (nth 2 (momentum_integral_re KQ' ex_mixed None) []) [])
+  /\ nth 12 (nth 8 (angmom_integral_re KQ' ex_mixed None) []) []
+  = vneg KQ' (nth 8 (nth 12 (angmom_integral_re KQ' ex_mixed None) []) []).
+Proof.
+  destruct mixed_hypotheses_satisfiable as (_ & _ & _ & E1 & _).
+  split.
+  - apply (momentum_integral_herm_mixed KQ' (KQ_field _ _ _ _ _) (KQ_apx _ _ _ _ _) (KQ_two _ _ _ _ _)
+             ex_mixed ex_mixed_seg ex_mixed_wf ex_mixed_exps); rewrite E1; lia.
+  - apply (angmom_integral_herm_mixed KQ' (KQ_field _ _ _ _ _) (KQ_apx _ _ _ _ _) (KQ_two _ _ _ _ _)
+             ex_mixed ex_mixed_seg ex_mixed_wf ex_mixed_exps); rewrite E1; lia.
 Qed.
 End Ex.
